@@ -623,8 +623,15 @@ func locClass(n metamodel.Node) (string, bool) {
 	return n.Kind + "<" + strings.Join(chain, ">"), outside
 }
 
+// validate validates twice: whatever the first pass (of this or of an earlier document) left behind
+// must not change the verdict of the second
 func validate(doc *openapi3.T, opts int) (err error) {
-	return doc.Validate(context.Background(), vopts(opts)...)
+	first := doc.Validate(context.Background(), vopts(opts)...)
+	second := doc.Validate(context.Background(), vopts(opts)...)
+	if (first == nil) != (second == nil) {
+		return fmt.Errorf("VERDICT-CHANGES-ON-REVALIDATION: first %v, second %v", first, second)
+	}
+	return first
 }
 
 func check(c Case) (o h.Outcome) {
